@@ -141,7 +141,7 @@ func parse(p *pj.Program, mi int, reused bool) *parsed {
 				inc[k] = v
 			}
 		}
-		last.svc, last.err = opts.NewDesccriptorFromContent(context.Background(), p.Main, src[p.Main], inc)
+		last.svc, last.err = opts.NewDesccriptorFromContent(context.Background(), p.Main, src[p.Main], inc, p.ImportDirs...)
 	})
 	return &last
 }
